@@ -94,6 +94,8 @@ std::vector<Event> buildEvents()
     e.push_back({ QStringLiteral("digest response alice:right"), Event::DigestResponse, 0 });
     e.push_back({ QStringLiteral("digest response alice:wrong"), Event::DigestResponse, 1, 1 });
     e.push_back({ QStringLiteral("digest response as bob with alice's password"), Event::DigestResponse, 2, 1 });
+    e.push_back({ QStringLiteral("digest response as unknown user 'ghost' with an empty password"), Event::DigestResponse, 3, 1 });
+    e.push_back({ QStringLiteral("digest response as alice with an empty password"), Event::DigestResponse, 4, 1 });
     e.push_back({ QStringLiteral("digest final empty response"), Event::DigestFinal, 0 });
     e.push_back({ QStringLiteral("auth ANONYMOUS"), Event::AuthOther, 0, 1 });
     e.push_back({ QStringLiteral("auth UNKNOWN-MECH"), Event::AuthOther, 1, 1 });
@@ -459,6 +461,11 @@ struct Exec {
                 pw = "nope";
             } else if (e.a == 2) {
                 user = "bob";
+            } else if (e.a == 3) {
+                user = "ghost";
+                pw = "";
+            } else if (e.a == 4) {
+                pw = "";
             }
             QByteArray resp = "invalid";
             if (digestPending && !digestChallenge.isEmpty()) {
